@@ -6,7 +6,7 @@
                            on the database WITH the index (w) and WITHOUT it (wo);
      SLookup v r         : StorageSnapshot::lookup_index(ilabel, ikey, v), ids sorted.
    `ok` replays the history in the model and compares every observation. *)
-From NDB Require Export IndexSem.Model Corr.Common.
+From NDB Require Export IndexSem.Model IndexSem.CyEq Corr.Common.
 
 Inductive obs :=
 | SOp (o : op)
@@ -22,9 +22,15 @@ Fixpoint replay (il ik : N) (s : state) (l : list obs) : bool :=
   | SQuery lb preds w wo :: t =>
       list_eqb N.eqb (seek_eval il ik s lb preds) w &&
       list_eqb N.eqb (scan_eval s lb preds) wo &&
+      (* the arithmetic side condition of C15_index_transparent never holds *)
+      match preds with (_, v0) :: _ => negb (k_numeric il ik s v0) | [] => true end &&
+      (* the model's scalar equality is Cypher/Compare.v's cy_eq on every pair compared here *)
+      forallb (fun kv => forallb (fun n => match pget (fst kv) (n_props n) with
+                                            | Some w => agree w (snd kv)
+                                            | None => true end) (nodes s)) preds &&
       replay il ik s t
   | SLookup v r :: t =>
-      opt_eqb (list_eqb N.eqb) (option_map sort_ids (lookup il ik s il ik v)) r &&
+      opt_eqb (list_eqb N.eqb) (option_map sort_ids (lookup1 il ik s il ik v)) r &&
       replay il ik s t
   end.
 
